@@ -1140,6 +1140,11 @@ def run_cases(ctx, cases, rebuild=None):
             continue
         live.append(c)
     answers = core.Lean.run([c.line for c in live])
+    # the known-finding class predicate exists twice (here and as QP.C12.InKnownClassClosedSum): they must agree
+    cls = core.Lean.run([sx(['c12', 'known-class', list(c.extra.get('symbolic', ())), to_sexp(c.tree)]) for c in cases])
+    for c, a in zip(cases, cls):
+        if (a == 'true') != closed_sum_inspected(c.tree, tuple(c.extra.get('symbolic', ()))):
+            raise core.MachineryError('known-finding class: harness and Lean predicate differ on %s' % _safe_str(c.tree))
     bad = 0
     for c, ans in zip(live, answers):
         nontrivial = c.impl[0] == 'ok' and tree_size(c.tree) > 1
